@@ -341,7 +341,7 @@ class ScriptVecGym:
             te = bool(end and (kind == "term" or (kind == "mixed" and self.episode[e] % 2 == 0)))
             tr = bool(end and not te)
             r = float(((_mix(gid, 5) % 2001) - 1000) / 500.0)
-            self.log.append({"kind": "step", "env": e, "gid": gid, "action": np.asarray(a).tolist(), "reward": r, "end": end, "owner": self.owner,
+            self.log.append({"kind": "step", "env": e, "gid": gid, "action": np.asarray(a).tolist(), "reward": r, "end": end, "terminated": te, "owner": self.owner,
                              "phase": self.phase, "episode": self.episode[e]})
             if end:
                 self.episode[e] += 1
